@@ -297,6 +297,7 @@ pub fn replay_rows(tlc_out: &str, facts: Facts, rep: &mut Report) {
     for payload in tlc_rows(tlc_out, "ROW") {
         let Ok(row) = serde_json::from_str::<J>(&payload) else { continue };
         rep.count("rows");
+        rep.ctx = Some(json!({"sub": "web-replay", "row": payload}));
         let events = row["events"].as_array().cloned().unwrap_or_default();
         let mut page = Page::new(facts);
         let mut applicable = true;
